@@ -57,6 +57,73 @@ STATEFUL = {
 }
 
 
+# ------------------------------------------------------------------ per-test state behind the testing.* helpers
+# every state-changing helper of tester/function/*.go (and `set req.backend`) as a resource with a small
+# state space: mut[v] puts it in state v, obs[v] is ONE assertion that holds exactly in state v (0 = untouched)
+def _eq(var, vals):
+    return {v: 'assert.equal(%s, "%s")' % (var, t) for v, t in vals.items()}
+
+
+RES = [
+    {"name": "testing.table_set",
+     "mut": {1: 'testing.table_set(tbl, "k0", "v1")', 2: 'testing.table_set(tbl, "k0", "v2")'},
+     "obs": _eq('table.lookup(tbl, "k0", "none")', {0: "v0", 1: "v1", 2: "v2"})},
+    {"name": "testing.table_merge",
+     "mut": {1: "testing.table_merge(tbl, fx1)", 2: "testing.table_merge(tbl, fx2)", 3: 'testing.table_set(tbl, "mk", "x3")'},
+     "obs": _eq('table.lookup(tbl, "mk", "none")', {0: "none", 1: "f1", 2: "f2", 3: "x3"})},
+    {"name": "testing.inject_variable",
+     "mut": {1: 'testing.inject_variable("client.geo.country_code", "JP")', 2: 'testing.inject_variable("client.geo.country_code", "BR")'},
+     "obs": _eq("client.geo.country_code", {0: "unknown", 1: "JP", 2: "BR"})},
+    {"name": "testing.inject_variable(server.region)",
+     "mut": {1: 'testing.inject_variable("server.region", "ASIA")', 2: 'testing.inject_variable("server.region", "EU")'},
+     "obs": _eq("server.region", {0: "US", 1: "ASIA", 2: "EU"})},
+    {"name": "testing.mock",
+     "mut": {1: 'testing.mock("s_m", "mock_1")', 2: 'testing.mock("s_m", "mock_2")', 0: "testing.restore_all_mocks()"},
+     "obs": {v: 'call s_m;\n  assert.equal(req.http.mocked, "%s")' % t for v, t in {0: "real", 1: "m1", 2: "m2"}.items()},
+     "restore": 'testing.restore_mock("s_m")'},
+    {"name": "testing.fixed_time",
+     "mut": {1: "testing.fixed_time(1000000000)", 2: "testing.fixed_time(1500000000)"},
+     "obs": {0: 'assert.not_match(now.sec, "^1[05]00000000$")', 1: 'assert.equal(now.sec, "1000000000")', 2: 'assert.equal(now.sec, "1500000000")'}},
+    {"name": "testing.override_host",
+     "mut": {1: 'testing.override_host("h1.example")', 2: 'testing.override_host("h2.example")'},
+     "obs": _eq("req.http.host", {0: "localhost", 1: "h1.example", 2: "h2.example"})},
+    {"name": "testing.set_backend_health",
+     "mut": {1: "testing.set_backend_health(B_h, false)", 0: "testing.set_backend_health(B_h, true)"},
+     "obs": {0: "assert.true(backend.B_h.healthy)", 1: "assert.false(backend.B_h.healthy)"}},
+    {"name": "testing.fixed_access_rate",
+     "mut": {1: "testing.fixed_access_rate(100)", 2: "testing.fixed_access_rate(7)"},
+     "obs": {v: 'set req.http.rate = ratecounter.rc_a.rate.10s;\n  assert.equal(req.http.rate, "%s")' % t
+             for v, t in {0: "0.000", 1: "100.000", 2: "7.000"}.items()}},
+    {"name": "set req.backend",
+     "mut": {1: "set req.backend = B_g", 0: "set req.backend = B_h"},
+     "obs": {0: "assert.equal(req.backend, B_h)", 1: "assert.equal(req.backend, B_g)"}},
+]
+RES_SCOPES = ["recv", "miss", "pass", "hit"]
+MAIN_DECLS = """backend B_h { .host = "127.0.0.1"; .port = "80"; }
+backend B_g { .host = "127.0.0.2"; .port = "80"; }
+table tbl STRING { "k0": "v0", }
+ratecounter rc_a { }
+sub s_m {
+  set req.http.mocked = "real";
+}
+"""
+TEST_DECLS = """table fx1 STRING { "mk": "f1", }
+table fx2 STRING { "mk": "f2", }
+"""
+# the mock targets are subroutines of the test file, hence tests themselves (they pass, in RECV)
+AUX_TESTS = """// @scope: recv
+// @suite: T9001
+sub mock_1 {
+  set req.http.mocked = "m1";
+}
+// @scope: recv
+// @suite: T9002
+sub mock_2 {
+  set req.http.mocked = "m2";
+}
+"""
+
+
 class Suite:
     def __init__(self):
         self.subs = []      # (k, block)
@@ -82,7 +149,7 @@ class Suite:
         return " + ".join(parts) if parts else '"%s"' % final
 
     def main_vcl(self):
-        out = []
+        out = [MAIN_DECLS.rstrip("\n")]
 
         def block(b, ind):
             for s in b:
@@ -140,7 +207,7 @@ class Suite:
         return "\n".join(out) + "\n"
 
     def test_vcl(self, order):
-        out = []
+        out = [TEST_DECLS.rstrip("\n")]
         for ti in order:
             t = self.tests[ti]
             out.append("// @scope: " + ", ".join(t["scopes"]))
@@ -164,8 +231,12 @@ class Suite:
                     out.append('  assert.equal(req.http.f%d, "1");' % s[1] if s[2] else "  assert.is_notset(req.http.f%d);" % s[1])
                 elif k == "ac":
                     out.append("  " + (s[3] if len(s) > 3 else ASSERTS[s[1]][0 if s[2] else 1]) + ";")
+                elif k == "res":
+                    out.append("  " + (s[3] if len(s) > 3 else RES[s[1]]["mut"][s[2]]) + ";")
+                elif k == "ar":
+                    out.append("  " + RES[s[1]]["obs"][s[2]] + ";")
             out.append("}")
-        return "\n".join(out) + "\n"
+        return "\n".join(out) + "\n" + AUX_TESTS
 
     # ------------------------------------------------------------ model
     @staticmethod
@@ -217,7 +288,12 @@ class Suite:
                     steps.append("(af %d %d)" % (s[1], int(s[2])))
                 elif s[0] == "ac":
                     steps.append("(ac %d)" % int(s[2]))
+                elif s[0] == "res":
+                    steps.append("(res %d %d)" % (s[1], s[2]))
+                elif s[0] == "ar":
+                    steps.append("(ar %d %d)" % (s[1], s[2]))
             tests.append("(test %d %d %d (%s))" % (t["name"], len(t["scopes"]), int(t["skip"]), " ".join(steps)))
+        tests += ["(test 9001 1 0 ())", "(test 9002 1 0 ())"]
         return "run %d (subs%s) (tests %s)" % (int(cov), subs, " ".join(tests))
 
     @staticmethod
@@ -302,6 +378,7 @@ def simulate(suite, order):
     for ti in order:
         t = suite.tests[ti]
         fl = set()                                  # a fresh interpreter per test subroutine
+        rs = {}
         for sc in t["scopes"]:
             if t["skip"]:
                 cases.append((t["name"], sc, True, "pass", []))
@@ -336,6 +413,15 @@ def simulate(suite, order):
                         else:
                             verdict = "assert"
                             break
+                    elif k == "res":
+                        rs[s[1]] = s[2]
+                    elif k == "ar":
+                        if rs.get(s[1], 0) == s[2]:
+                            p += 1
+                            a += 1
+                        else:
+                            verdict = "assert"
+                            break
                 except Raise:
                     verdict = "runtime"
                     break
@@ -346,6 +432,7 @@ def simulate(suite, order):
                 f += 1
                 a += 1
             cases.append((t["name"], sc, False, verdict, logs))
+    cases += [(9001, "recv", False, "pass", []), (9002, "recv", False, "pass", [])]
     return cases, (a, p, f, sk), (1 if f > 0 else 0)
 
 
@@ -478,6 +565,68 @@ class TestRunGen:
                 self._c("assert-holds:" + kind)
                 out.append(("ac", kind, True))
         return out
+
+    def res_steps(self, hot, single_scope):
+        """mutate and observe the hot resources: every observation holds by construction in the first scope
+        (later scopes start from the state the earlier ones left: the evaluator knows)"""
+        r = self.r
+        out = []
+        cur = {}
+        for _ in range(r.randint(2, 6)):
+            x = r.choice(hot)
+            k = r.random()
+            if k < 0.55:
+                v = r.choice(sorted(RES[x]["mut"]))
+                if v == 0 and cur.get(x, 0) != 0 and "restore" in RES[x] and single_scope and r.random() < 0.5:
+                    out.append(("res", x, 0, RES[x]["restore"]))
+                else:
+                    out.append(("res", x, v))
+                cur[x] = v
+                self._c("helper:" + RES[x]["name"])
+            elif k < 0.92:
+                out.append(("ar", x, cur.get(x, 0)))
+                self._c("observe:" + RES[x]["name"])
+            else:
+                wrong = r.choice([v for v in RES[x]["obs"] if v != cur.get(x, 0)])
+                out.append(("ar", x, wrong))
+                out.append(("log", 950))
+                self._c("observe-fails:" + RES[x]["name"])
+                break
+        return out
+
+    def stateful_suite(self):
+        """tests that MUTATE per-test state through the testing.* helpers and tests that OBSERVE the same
+        state: run in every order, they decide whether anything leaks from one test to the next"""
+        r = self.r
+        s = Suite()
+        self.nlog = 0
+        self.nsubs = 1
+        s.subs.append((0, self.block(0, 2)))
+        hot = r.sample(range(len(RES)), 3)
+        for t in range(r.choice([3, 4, 5, 5, 6])):
+            nsc = r.choice([1, 1, 2])
+            scopes = r.sample(RES_SCOPES, nsc)
+            steps = self.res_steps(hot, nsc == 1)
+            if r.random() < 0.4:
+                steps.insert(r.randrange(len(steps) + 1), ("call", 0, r.random() < 0.5))
+            s.tests.append({"name": t, "scopes": scopes, "skip": r.random() < 0.08, "steps": steps, "expect": "pass"})
+            self._c("test:stateful")
+        return s
+
+    def resource_suite(self, x):
+        """resource x exhaustively: the untouched observation, every mutator, every ordered PAIR of mutators,
+        each followed by the observation of the state it must leave"""
+        s = Suite()
+        self.nlog = 0
+        self.nsubs = 1
+        s.subs.append((0, [("log", 1, [])]))
+        muts = sorted(RES[x]["mut"])
+        seqs = [[]] + [[a] for a in muts] + [[a, b] for a in muts for b in muts]
+        for n, seq in enumerate(seqs):
+            steps = [("res", x, v) for v in seq] + [("ar", x, seq[-1] if seq else 0), ("log", n)]
+            s.tests.append({"name": n, "scopes": ["recv"], "skip": False, "steps": steps, "expect": "pass"})
+        self._c("resource-suite:" + RES[x]["name"])
+        return s
 
     def kinds_suite(self):
         """one test per assertion kind and polarity (every kind of tester/function/assert*.go)"""
